@@ -213,9 +213,18 @@ def insert_spec(ctx: Ctx, rep: Report) -> None:
         key='search',
     )
     chk = q.has_call('self.check_valid_operation', ['op'])
-    first = [n for n in g.nodes if n.kind == 'stmt'][:1]
+
+    def modifies(n) -> bool:
+        if any(norm(c.func) in ('self._insert_cycle', 'self.append',
+                                'self._append') for c in n.calls()):
+            return True
+        st = n.stmt
+        if n.kind == 'stmt' and isinstance(st, (ast.Assign, ast.AugAssign)):
+            ts = st.targets if isinstance(st, ast.Assign) else [st.target]
+            return any(norm(t).startswith('self._') for t in ts)
+        return False
     rep.check(
-        g.must(chk) and bool(first) and chk(first[0]), I,
+        g.must(chk) and not g.precedes(chk, modifies), I,
         'Circuit.insert:validate', f.path, f.lineno,
         'the operation is validated before anything is modified',
         'insert modifies the circuit before validating the operation',
